@@ -63,6 +63,15 @@ impl Line {
         unsafe { Self::MARK_TABLE.load::<u8>(self.start()) == state }
     }
 
+    /// The mark byte of the line containing `addr` (verification hook).
+    #[cfg(feature = "mmtk_verif")]
+    pub fn verif_mark_byte(addr: Address) -> u8 {
+        Self::MARK_TABLE.load_atomic::<u8>(
+            Line::from_unaligned_address(addr).start(),
+            std::sync::atomic::Ordering::SeqCst,
+        )
+    }
+
     /// Mark all lines the object is spanned to.
     pub fn mark_lines_for_object<VM: VMBinding>(object: ObjectReference, state: u8) -> usize {
         debug_assert!(!super::BLOCK_ONLY);
